@@ -13,7 +13,7 @@ import (
 func init() {
 	register(&Check{
 		ID: "C07", Level: "exploration", QuickSecs: 150, ThoroughSecs: 1500,
-		Rule:        "rule-reference graphs on 1..3 rules; each rule is [alt0 /] alt1 [/ alt2] with alt1 = prefix ref-item ['a'] where prefix ranges over {none,'a',\"\",'a'?,'a'*,'a'+,&'a',!'a',[],[^a],&{true},#{},x:\"\",(\"\"/'a'),('a'/\"\"),%{l},N,('a'?)+,N+} (N <- 'z'? a nullable rule), ref-item over {R,R?,R*,R+,&R,!R,x:R,(R 'a'),(R/'a'),R{act},('a'/R), %{l} //{l} R, (N R)?,(N R)*,(N R 'a')+,&(N R),!(N R),x:(N R),!'a' / N R 'a',&'a' / R 'a',&{} / R 'a', recovery into N R, ('a' / %{l}) 'a' //{l} R, (%{l} 'a') //{l} R, (N %{l} 'a') //{l} N R} and alt0 a nullable alternative that can fail (&!., !'a', !{}, &'a' \"\") for every target rule R (1 rule: complete product; 2 rules: complete sets for the first rule x reduced sets (thorough: complete) for the second; 3 rules: every 3-cycle and chord over 6 prefix kinds); each grammar is analysed by the real front-end + builder.PrepareGrammar (accepted / 'contains left recursion') and compared with (i) ground truth within bounds: the reference interpreter run on all inputs over {a,b} up to L=2 reports whether some rule is re-entered at an offset where it is already active, (ii) an independent static analysis (least-fixpoint nullability, first-call sets descending into & and !). accepted + dynamic witness = miss; rejected + no static cycle + no witness = false rejection. For every miss and a slice of the accepted grammars the real generated parser is run (must stay within the expression budget whenever the reference terminates). Non-trivial = grammars with at least one cycle in the static analysis or a nullable prefix before a reference.",
+		Rule:        "rule-reference graphs on 1..3 rules; each rule is [alt0 /] alt1 [/ alt2] with alt1 = prefix ref-item ['a'] where prefix ranges over {none,'a',\"\",'a'?,'a'*,'a'+,&'a',!'a',[],[^a],&{true},#{},x:\"\",(\"\"/'a'),('a'/\"\"),%{l},N,('a'?)+,N+} (N <- 'z'? a nullable rule), ref-item over {R,R?,R*,R+,&R,!R,x:R,(R 'a'),(R/'a'),R{act},('a'/R), %{l} //{l} R, (N R)?,(N R)*,(N R 'a')+,&(N R),!(N R),x:(N R),!'a' / N R 'a',&'a' / R 'a',&{} / R 'a', recovery into N R, ('a' / %{l}) 'a' //{l} R, (%{l} 'a') //{l} R, (N %{l} 'a') //{l} N R} and alt0 a nullable alternative that can fail (&!., !'a', !{}, &'a' \"\") for every target rule R (1 rule: complete product; 2 rules: complete sets for the first rule x reduced sets (thorough: complete) for the second; 3 rules: every 3-cycle and chord over 6 prefix kinds; mutually dependent nullability: 5 nullable prefix rules that refer back to the recursive rule x 4 recursive rules x both name orders and definition orders, also through a third rule); each grammar is analysed by the real front-end + builder.PrepareGrammar (accepted / 'contains left recursion') and compared with (i) ground truth within bounds: the reference interpreter run on all inputs over {a,b} up to L=2 reports whether some rule is re-entered at an offset where it is already active, (ii) an independent static analysis (least-fixpoint nullability, first-call sets descending into & and !). accepted + dynamic witness = miss; rejected + no static cycle + no witness = false rejection. For every miss and a slice of the accepted grammars the real generated parser is run (must stay within the expression budget whenever the reference terminates). Non-trivial = grammars with at least one cycle in the static analysis or a nullable prefix before a reference.",
 		Assumptions: []string{"hook analyze mode = ParseReader + builder.PrepareGrammar of the working tree", "recovery operators are analysed conservatively by both sides; no false-rejection alarm is raised for grammars with throw/recover"},
 		Run:         runC07,
 	})
@@ -224,6 +224,39 @@ func runC07(c *ShardCtx) {
 								check(&peg.Grammar{Rules: []*peg.Rule{{Name: "A", Expr: e}}})
 							}
 						}
+					}
+				}
+			}
+		}
+	}
+	// mutually dependent nullability: the nullable prefix rule P itself refers back to R behind a
+	// terminal, R is nullable on its own and left-recursive behind P; both name orders (the analysis
+	// visits the rules in name order) and a three-rule chain
+	{
+		lit := peg.Lit
+		pbodies := []func(r string) *peg.Expr{
+			func(r string) *peg.Expr { return peg.Opt(peg.Seq(lit("k"), peg.Ref(r))) },
+			func(r string) *peg.Expr { return peg.Star(peg.Seq(lit("k"), peg.Ref(r))) },
+			func(r string) *peg.Expr { return peg.Choice(peg.Seq(lit("k"), peg.Ref(r)), lit("")) },
+			func(r string) *peg.Expr { return peg.Choice(lit(""), peg.Seq(lit("k"), peg.Ref(r))) },
+			func(r string) *peg.Expr { return peg.Seq(peg.Opt(lit("k")), peg.Opt(peg.Seq(lit("z"), peg.Ref(r)))) },
+		}
+		rbodies := []func(p, r string) *peg.Expr{
+			func(p, r string) *peg.Expr { return peg.Choice(peg.Seq(peg.Ref(p), peg.Ref(r), lit("a")), peg.Opt(lit("b"))) },
+			func(p, r string) *peg.Expr { return peg.Choice(peg.Seq(peg.Ref(p), peg.Ref(r), lit("a")), lit("b")) },
+			func(p, r string) *peg.Expr { return peg.Seq(peg.Opt(peg.Seq(peg.Ref(p), peg.Ref(r))), lit("a")) },
+			func(p, r string) *peg.Expr { return peg.Choice(peg.Opt(lit("b")), peg.Seq(peg.Ref(p), peg.Ref(r), lit("a"))) },
+		}
+		for _, pb := range pbodies {
+			for _, rb := range rbodies {
+				for _, names := range [][2]string{{"A", "B"}, {"B", "A"}} {
+					pn, rn := names[0], names[1]
+					check(&peg.Grammar{Rules: []*peg.Rule{{Name: pn, Expr: pb(rn)}, {Name: rn, Expr: rb(pn, rn)}}})
+					check(&peg.Grammar{Rules: []*peg.Rule{{Name: rn, Expr: rb(pn, rn)}, {Name: pn, Expr: pb(rn)}}})
+					// through a third rule
+					for _, third := range []string{"C", "0"} {
+						tn := map[string]string{"C": "C", "0": "A0"}[third]
+						check(&peg.Grammar{Rules: []*peg.Rule{{Name: pn, Expr: peg.Ref(tn)}, {Name: tn, Expr: pb(rn)}, {Name: rn, Expr: rb(pn, rn)}}})
 					}
 				}
 			}
